@@ -805,6 +805,7 @@ class Explorer:
         while i < len(calls):
             c = calls[i]
             i += 1
+            st.repl.pop(id(c), None)  # a call that is evaluated again (unrolled loop): its earlier value is not reused
             targets = None
             if self.inline is not None and depth < self.max_depth:
                 try:
